@@ -18,6 +18,7 @@ import (
 type C08Scenario struct {
 	Files     []SrcFile      `json:"files"` // materialised under src/
 	GitLog    string         `json:"git_log"`
+	GoFile    string         `json:"go_file"`
 	Tree      []gen.TreeFile `json:"tree"`
 	Root      string         `json:"root"`
 	Target    string         `json:"target"`
@@ -90,6 +91,7 @@ func (C08) Generate(t *tape.Tape, tier string) interface{} {
 	}
 	sc.GitLog = gen.GenGitLog(t)
 	sc.Tree = gen.GenClocTree(t)
+	sc.GoFile = gen.GenGoFile(t)
 	k := 4
 	if thorough {
 		k = 8
@@ -368,6 +370,30 @@ func canonEvaluate(raw []byte) (string, error) {
 	return string(b), nil
 }
 
+// canonGoContainer: the Go front-end sorts the data structures by name; entries with the same
+// name are a tie (nothing demanded about their order), everything else verbatim.
+func canonGoContainer(raw []byte) (string, error) {
+	var m map[string]json.RawMessage
+	if err := json.Unmarshal(raw, &m); err != nil {
+		return "", err
+	}
+	var ds []map[string]interface{}
+	if d, ok := m["DataStructures"]; ok && string(d) != "null" {
+		if err := json.Unmarshal(d, &ds); err != nil {
+			return "", err
+		}
+	}
+	var keys, rows []string
+	for _, d := range ds {
+		b, _ := json.Marshal(d)
+		keys = append(keys, fmt.Sprint(d["NodeName"]))
+		rows = append(rows, string(b))
+	}
+	delete(m, "DataStructures")
+	rest, _ := json.Marshal(m)
+	return string(rest) + "\nDataStructures by name: " + strings.Join(keys, ",") + "\n" + canonKeyed(keys, rows), nil
+}
+
 // canonVisual: nodes and links of the visual graph as sets (ids resolved to names).
 func canonVisual(raw []byte) (string, error) {
 	var v map[string][]map[string]interface{}
@@ -639,6 +665,25 @@ func (C08) Run(ctx *sim.RunCtx, data json.RawMessage) (*sim.Outcome, error) {
 				arte["lib.full-model"] = "ident failed"
 			}
 		}
+		// Go front-end (API level): data structures are collected through a map and sorted afterwards
+		if sc.GoFile != "" {
+			goPath := filepath.Join(w, "demo.go")
+			os.WriteFile(goPath, []byte(sc.GoFile), 0644)
+			resg, err := ctx.Run(&sim.Proc{Schedule: s, Cwd: w, Ops: []sim.Op{{Op: "goIdent", Args: map[string]interface{}{"file": "demo.go"}}}})
+			if err != nil {
+				return nil, err
+			}
+			nonCanon += resg.NonCanon
+			if resg.Completed(0) && resg.Records[0].OK {
+				cv, cerr := canonGoContainer(resg.Records[0].Result)
+				if cerr != nil {
+					return nil, fail("go.container", cerr)
+				}
+				arte["go.container"] = cv
+			} else {
+				arte["go.container"] = "failed"
+			}
+		}
 		// git reports (API level)
 		res, err := ctx.Run(&sim.Proc{Schedule: s, Cwd: w, Ops: []sim.Op{{Op: "git", Args: map[string]interface{}{"log": gitLog}}}})
 		if err != nil {
@@ -694,6 +739,21 @@ func (C08) Run(ctx *sim.RunCtx, data json.RawMessage) (*sim.Outcome, error) {
 
 // clipDiff shows the lines of a that are not in b (at most 12).
 func clipDiff(a, b string) string {
+	if !strings.Contains(a, "\n") || !strings.Contains(b, "\n") {
+		// single-line artefacts: a window around the first differing byte
+		i := 0
+		for i < len(a) && i < len(b) && a[i] == b[i] {
+			i++
+		}
+		lo, hi := i-160, i+240
+		if lo < 0 {
+			lo = 0
+		}
+		if hi > len(a) {
+			hi = len(a)
+		}
+		return fmt.Sprintf("(first difference at byte %d) ...%s...", i, a[lo:hi])
+	}
 	bl := map[string]bool{}
 	for _, l := range strings.Split(b, "\n") {
 		bl[l] = true
